@@ -122,6 +122,8 @@ def probe(tree, rec, calls, out, order, ran=None, nan_mode=False):
         seg = parts[k + 1].split("\n\n")[0] if lv < H - 1 else parts[k + 1]
         if seg.startswith("No demes"):
             lv_info[lv] = (0, 0)
+            if len(tree._levels[lv]) > 0:
+                viol.append({"key": "C20/level-counts", "what": f"level {lv + 1}: summary() prints 'No demes' but the level holds {len(tree._levels[lv])} demes (metaepoch {m})"})
         else:
             try:
                 lbf = re.search(r"^Best fitness: (\S+)$", seg, re.M).group(1)
@@ -131,6 +133,10 @@ def probe(tree, rec, calls, out, order, ran=None, nan_mode=False):
                 viol.append({"key": "C20/format", "what": f"level {lv + 1} block could not be parsed: {seg[:160]!r}"})
                 continue
             lv_info[lv] = (le, lc)
+            want_e, want_c = sum(int(d.n_evaluations) for d in tree._levels[lv]), len(tree._levels[lv])
+            if (le, lc) != (want_e, want_c):
+                viol.append({"key": "C20/level-counts", "what": f"level {lv + 1}: summary() prints {le} evaluations and {lc} demes; the level's demes count {want_e} evaluations "
+                                                                f"and there are {want_c} of them (metaepoch {m})"})
             lb = [bests[d._id] for d in tree._levels[lv] if bests[d._id] is not None]
             if lb:
                 want = max(lb)
